@@ -27,6 +27,11 @@
 
 #include <xalanc/Include/XalanVector.hpp>
 
+#if defined(APACHE_XALAN_C_VERIF)
+#include <utility>
+#include <vector>
+#endif
+
 
 
 
@@ -218,6 +223,16 @@ public:
 
         m_countersVector.clear();
     }
+
+#if defined(APACHE_XALAN_C_VERIF)
+    // verification hook: sizes of the internal vectors
+    void
+    verifReportSizes(std::vector<std::pair<const char*, unsigned long> >&  out) const
+    {
+        out.push_back(std::make_pair("CountersTable::m_countersVector", static_cast<unsigned long>(m_countersVector.size())));
+        out.push_back(std::make_pair("CountersTable::m_newFound", static_cast<unsigned long>(m_newFound.size())));
+    }
+#endif
 
 private:
     // not implemented
